@@ -80,6 +80,25 @@ class Enc:
 
 PLAIN = Enc()
 
+ALL_PAD_KINDS = {'secsize', 'count', 'idx', 'funcidx', 'typeidx', 'label', 'align', 'offset', 'i32.const', 'i64.const', 'localcount',
+                 'limit', 'namelen', 'bodysize', 'memidx', 'subop', 'tableidx'}
+
+
+def rot_enc(k, rnd=None):
+    """Encoding rotation for the differential checks: every 4th module (k % 4 == 3) is written with redundantly padded LEB128 fields
+    (the reference engine gets the same bytes), because the semantic properties quantify over every valid encoding of a module."""
+    if k % 4 != 3:
+        return PLAIN
+    import random
+    r = rnd or random.Random(k * 7919 + 13)
+
+    def padfn(kind, maxb):
+        if kind not in ALL_PAD_KINDS:
+            return 0
+        x = r.random()
+        return 0 if x < 0.5 else (maxb if x > 0.85 else r.randint(0, maxb))
+    return Enc(padfn)
+
 # ---------------------------------------------------------------- opcode table
 # name -> (prefix, code, immkind, params, results)
 OPS = {}
